@@ -240,11 +240,11 @@ func (harness) Run(cfg xplore.Config, ch vrt.Chooser, trace bool) (xplore.Outcom
 		managed := map[string]bool{}
 		raceAdded := false
 		for _, t := range d.targets {
+			e.add(t, "added", -1, "") // logged first: the monitor goroutine may start before Add returns
 			if err := m.Add(t, &tpb.Target{Addresses: []string{t}}, sr); err != nil {
 				viol("add-refused", "Add(%s): %v", t, err)
 			}
 			managed[t] = true
-			e.add(t, "added", -1, "")
 		}
 		for round := 0; round < d.rounds; round++ {
 			vrt.Idle()
@@ -275,20 +275,27 @@ func (harness) Run(cfg xplore.Config, ch vrt.Chooser, trace bool) (xplore.Outcom
 					case "reconnect":
 						m.Reconnect("t1")
 					case "remove":
+						e.add("t1", "reminv", -1, "")
 						if err := m.Remove("t1"); err != nil {
 							viol("remove-refused", "Remove(t1): %v", err)
 						}
 						e.add("t1", "removed", -1, "")
 					case "add":
 						// wait for the removal issued in the previous round
+						e.add("t1", "addinv", -1, "")
 						if err := m.Add("t1", &tpb.Target{Addresses: []string{"t1"}}, sr); err != nil {
 							viol("add-refused", "re-Add(t1) after Remove: %v", err)
+							e.add("t1", "addfailed", -1, "")
+						} else {
+							e.add("t1", "added", -1, "")
 						}
-						e.add("t1", "added", -1, "")
 					case "addrace":
+						e.add("t1", "addinv", -1, "")
 						if err := m.Add("t1", &tpb.Target{Addresses: []string{"t1"}}, sr); err == nil {
 							e.add("t1", "added", -1, "")
 							raceAdded = true
+						} else {
+							e.add("t1", "addfailed", -1, "")
 						}
 					case "adddup":
 						before := len(e.log)
@@ -314,6 +321,7 @@ func (harness) Run(cfg xplore.Config, ch vrt.Chooser, trace bool) (xplore.Outcom
 		}
 		for _, t := range d.targets {
 			if managed[t] {
+				e.add(t, "reminv", -1, "")
 				if err := m.Remove(t); err != nil {
 					viol("remove-refused", "final Remove(%s): %v", t, err)
 				}
@@ -372,6 +380,8 @@ func (e *env) inSession(t string) bool {
 			return true
 		case "msg", "recverr", "open", "refused", "reset", "connect", "update", "sync", "connecterror", "monitorerror", "removed", "added":
 			return false
+		case "reminv", "addinv", "addfailed":
+			continue
 		}
 	}
 	return false
@@ -380,10 +390,14 @@ func (e *env) inSession(t string) bool {
 func (e *env) render(t string) string {
 	var b strings.Builder
 	for _, ev := range e.log {
-		if ev.target != t || ev.kind == "recvcall" {
+		if ev.target != t || ev.kind == "recvcall" || ev.kind == "addfailed" {
 			continue
 		}
 		switch ev.kind {
+		case "reminv":
+			b.WriteString("remove( ")
+		case "addinv":
+			b.WriteString("add( ")
 		case "open":
 			fmt.Fprintf(&b, "open#%d ", ev.stream)
 		case "msg":
@@ -400,26 +414,85 @@ func (e *env) render(t string) string {
 }
 
 // check runs the monitor automaton over the callback trace of target t.
+//
+// The harness logs "added"/"removed" after the call returned, in its own
+// thread, so other threads may log in between (the first event of a new
+// incarnation before "added"; a racing Add completing before the remover logs
+// "removed"). Incarnations of the target are therefore tracked explicitly
+// from the invocation events (addinv / reminv) as well.
 func (e *env) check(t string, viol func(class, format string, a ...interface{})) {
 	type st struct {
 		open, ended, connected, reset bool
-		msgs                          []string // returned by Recv, not yet accounted
+		msgs                          []string // returned by Recv
 		delivered                     int
 	}
 	var cur st
 	removed := false
+	addInFlight, removeInFlight := false, false
+	newSinceRemInv := false // a new incarnation began after the Remove in flight was invoked
+	implicitAdded := false  // a new incarnation was recognised by its first event, before "added" was logged
 	bad := func(class, why string, i int) {
 		viol(class, "target %s, event %d: %s\n  trace: %s", t, i, why, e.render(t))
 	}
-	pending := func() []string { // messages returned whose callbacks are still due (nil responses produce none)
-		var p []string
-		for _, m := range cur.msgs[cur.delivered:] {
-			p = append(p, m)
+	pending := func() []string { // messages returned whose callbacks are still due
+		return cur.msgs[cur.delivered:]
+	}
+	sessionDone := func() bool {
+		return !cur.open || len(cur.msgs)+boolInt(cur.ended) == 0 || (cur.ended && cur.reset)
+	}
+	startIncarnation := func(i int) bool {
+		if !sessionDone() {
+			bad("overlapping-sessions", "a new incarnation of the target started although the previous session was not ended and Reset (Remove must complete first)", i)
+			return false
 		}
-		return p
+		cur = st{}
+		removed = false
+		if removeInFlight {
+			newSinceRemInv = true
+		}
+		return true
 	}
 	for i, ev := range e.log {
 		if ev.target != t {
+			continue
+		}
+		switch ev.kind {
+		case "addinv":
+			addInFlight = true
+			continue
+		case "addfailed":
+			addInFlight = false
+			continue
+		case "reminv":
+			removeInFlight, newSinceRemInv = true, false
+			continue
+		case "added":
+			addInFlight = false
+			if implicitAdded {
+				implicitAdded = false
+				continue
+			}
+			if !startIncarnation(i) {
+				return
+			}
+			continue
+		case "removed":
+			removeInFlight = false
+			if !newSinceRemInv {
+				removed = true
+			}
+			continue
+		case "recvcall":
+			continue
+		}
+		// first event of the incarnation created by an Add that is still in flight
+		if (ev.kind == "open" || ev.kind == "refused") && addInFlight && !implicitAdded && (removed || (removeInFlight && sessionDone() && cur.open)) {
+			if !startIncarnation(i) {
+				return
+			}
+			implicitAdded = true
+		}
+		if ev.kind == "refused" {
 			continue
 		}
 		isCallback := map[string]bool{"connect": true, "update": true, "sync": true, "reset": true, "connecterror": true, "monitorerror": true}[ev.kind]
@@ -428,19 +501,13 @@ func (e *env) check(t string, viol func(class, format string, a ...interface{}))
 			return
 		}
 		switch ev.kind {
-		case "added":
-			removed = false
-			cur = st{}
-		case "removed":
-			removed = true
 		case "open":
-			if cur.open && !(cur.ended && cur.reset) && len(cur.msgs)+boolInt(cur.ended) > 0 {
+			if !sessionDone() {
 				bad("stream-not-reset", "a new stream was opened although the previous one (on which Recv was called) was not followed by exactly one Reset", i)
 				return
 			}
 			cur = st{open: true}
 		case "msg":
-			// the previous message's callbacks must all have happened
 			for len(pending()) > 0 && pending()[0] == "n" {
 				cur.delivered++
 			}
